@@ -11,6 +11,7 @@ import (
 	"path/filepath"
 	"strconv"
 	"strings"
+	"time"
 
 	"github.com/go-openapi/spec"
 	"github.com/go-openapi/strfmt"
@@ -29,7 +30,27 @@ var numTable = []string{"0", "1", "-1", "2", "3", "-3", "5", "7", "0.5", "-0.5",
 	// small negative integers against small factors: sign handling of the integer multipleOf paths
 	"-9", "9", "-10", "-6", "4", "-4", "-15"}
 
-var numKinds = []string{"float64", "float32", "int", "int8", "int16", "int32", "int64", "uint", "uint8", "uint16", "uint32", "uint64", "jsonNumber"}
+var numKinds = []string{"float64", "float32", "int", "int8", "int16", "int32", "int64", "uint", "uint8", "uint16", "uint32", "uint64", "jsonNumber",
+	// defined types of a numeric kind carry numbers like their underlying type does
+	"int64/duration", "uint32/filemode", "int32/defined", "float64/defined"}
+
+type definedInt32 int32
+type definedFloat64 float64
+
+// wrapDefined converts the value of a builtin kind into a defined type of the same kind
+func wrapDefined(variant string, x interface{}) interface{} {
+	switch variant {
+	case "int64/duration":
+		return time.Duration(x.(int64))
+	case "uint32/filemode":
+		return os.FileMode(x.(uint32))
+	case "int32/defined":
+		return definedInt32(x.(int32))
+	case "float64/defined":
+		return definedFloat64(x.(float64))
+	}
+	return x
+}
 
 // asKind carries the decimal s in the given Go kind when it is exactly representable there.
 func asKind(kind, s string) (interface{}, bool) {
@@ -133,10 +154,15 @@ func driveNumeric(args []string) error {
 		return w.write(ev, enc.M{"entry": entry, "op": op, "kind": kind, "type": typ, "format": format, "x": xs, "bound": bs, "exclusive": excl})
 	}
 	one := func(kind, xs, bs string) error {
+		variant := kind
+		if i := strings.IndexByte(kind, '/'); i >= 0 {
+			kind = kind[:i]
+		}
 		x, ok := asKind(kind, xs)
 		if !ok {
 			return nil
 		}
+		x = wrapDefined(variant, x)
 		br, _ := new(big.Rat).SetString(bs)
 		b, bexact := br.Float64()
 		// the constraint is the decimal written in the schema (<= 15 significant digits, or exactly a float64), carried by a float64
@@ -239,7 +265,7 @@ func driveNumeric(args []string) error {
 					}
 				}
 				// typed helpers, where the bound is representable in the value's type
-				if br.IsInt() && math.Abs(b) <= 1<<53 {
+				if variant == kind && br.IsInt() && math.Abs(b) <= 1<<53 {
 					var res string
 					switch {
 					case strings.HasPrefix(kind, "int"):
@@ -269,7 +295,7 @@ func driveNumeric(args []string) error {
 						}
 					}
 				}
-				if kind == "float64" {
+				if variant == "float64" {
 					xf := x.(float64)
 					var res string
 					switch op {
